@@ -86,13 +86,13 @@ class AbstractSeq:
 
 
 class SymRange:
-    """range(start, start + n) with a symbolic count"""
+    """range(start, start + n * step, step) with a symbolic count n"""
 
-    def __init__(self, start, n):
-        self.start, self.n = start, n
+    def __init__(self, start, n, step=1):
+        self.start, self.n, self.step = start, n, step
 
     def seq(self):
-        return AbstractSeq(self.n, lambda k: self.start + k, "range")
+        return AbstractSeq(self.n, lambda k: self.start + k * self.step, "range")
 
     def __iter__(self):
         n = self.n
@@ -102,7 +102,7 @@ class SymRange:
             if n.hi - n.lo + 1 > 300:
                 return iter(self.seq())
             n = n.concretize(limit=4096)
-        return iter([self.start + i for i in range(max(n, 0))])
+        return iter([self.start + i * self.step for i in range(max(n, 0))])
 
     def __pyvc_len__(self):
         return self.n
@@ -271,6 +271,66 @@ class LoopSpec:
         prove("%s: invariant is preserved by an arbitrary iteration" % self.name, self.invariant(L, self._k()))
         if self.it is None:
             prove("%s: variant strictly decreases" % self.name, self.variant(L, None) < self._v0)
+
+
+class GhostIntList:
+    """a list of integers of symbolic length (contents in one z3 array): append, len, item read and write"""
+
+    def __init__(self, name, lo, hi):
+        self.name, self.lo, self.hi = name, lo, hi
+        self.n = 0
+        self.arr = z3.K(z3.BitVecSort(W), z3.BitVecVal(0, W))
+        self.version = 0
+
+    def _idx(self, i):
+        if isinstance(i, SymInt) or isinstance(self.n, SymInt):
+            if bool(core.Or(i < 0, i >= self.n)):
+                raise IndexError("list index out of range")
+        elif not 0 <= i < self.n:
+            raise IndexError("list index out of range")
+        return SymInt.lift(i).t
+
+    def append(self, v):
+        v = SymInt.lift(v)
+        prove("%s: appended value lies in %d..%d" % (self.name, self.lo, self.hi), core.And(v >= self.lo, v <= self.hi))
+        self.arr = z3.Store(self.arr, SymInt.lift(self.n).t, v.t)
+        self.n = self.n + 1
+
+    def __getitem__(self, i):
+        if isinstance(i, slice):
+            raise Unsupported("slice of a ghost list")
+        t = z3.simplify(z3.Select(self.arr, self._idx(i)))
+        if z3.is_bv_value(t):
+            return t.as_signed_long()
+        ctx().add_fact(z3.And(t >= self.lo, t <= self.hi))
+        return SymInt(t, self.lo, self.hi)
+
+    def __setitem__(self, i, v):
+        v = SymInt.lift(v)
+        prove("%s: stored value lies in %d..%d" % (self.name, self.lo, self.hi), core.And(v >= self.lo, v <= self.hi))
+        self.arr = z3.Store(self.arr, self._idx(i), v.t)
+
+    def peek(self, j):
+        """element j without a bounds decision (for invariants / postconditions guarded by j < len)"""
+        t = z3.Select(self.arr, SymInt.lift(j).t)
+        ctx().add_fact(z3.And(t >= self.lo, t <= self.hi))
+        return SymInt(t, self.lo, self.hi)
+
+    def havoc(self, tag):
+        self.version += 1
+        self.n = core.fresh_int("%s.len@%s.%d" % (self.name, tag, self.version), 0, 1 << 32)
+        self.arr = z3.Array("%s@%s.%d" % (self.name, tag, self.version), z3.BitVecSort(W), z3.BitVecSort(W))
+
+    def __pyvc_len__(self):
+        return self.n
+
+    def __len__(self):
+        return self.n if isinstance(self.n, int) else self.n.concretize()
+
+    def __getattr__(self, nm):
+        if nm.startswith("__"):
+            raise AttributeError(nm)
+        raise Unsupported("operation %r on a ghost integer list" % nm)
 
 
 class GhostChunks:
